@@ -186,6 +186,10 @@ pub fn normalise(g: &Gen) -> Gen {
     g.layout.preload_reader.clear();
     g.layout.preload_writer.retain(|k| *k == 0);
     g.layout.preload_writer.dedup();
+    g.layout.stale_debris = false;
+    // one layout in six sits on a "filesystem without hard links" (every link fails with EPERM):
+    // puts then fail, which is allowed, but nothing may ever be replaced
+    g.layout.no_hard_links = fnv(format!("{:?}", g.progs).as_bytes()) % 6 == 0;
     for p in g.progs.iter_mut() {
         for o in p.iter_mut() {
             o.key = 0;
@@ -221,6 +225,9 @@ pub fn run(ctx: &Ctx) -> Report {
                 rep.label(if g.layout.kind >= 2 { "via Cache (with ensure)" } else { "via plain::Cache" });
                 if g.layout.dirs_missing {
                     rep.label("cache directory initially missing");
+                }
+                if g.layout.no_hard_links {
+                    rep.label("filesystem without hard links (link fails with EPERM)");
                 }
                 if nontrivial && rep.samples.len() < 2 {
                     let smp = json!({"layout": g.layout, "programs": g.progs, "strategy": s, "history": ex.hist.iter().map(|h| format!("[{}..{}] p{} {:?} -> {}", h.call_seq, h.ret_seq, h.tid, h.pop.kind, h.ret.short())).collect::<Vec<_>>()});
